@@ -99,6 +99,8 @@ def ensure_build(repo=None, log=None):
                 r = subprocess.run([PY, 'setup.py', '-q', 'build_ext', '--inplace', '-j16'], cwd=tree, env=env,
                                    capture_output=True, text=True)
                 info['rebuilt'] = True
+                # assemblers compiled by pyiga.compile link against the extension modules just rebuilt: drop them
+                shutil.rmtree(os.path.join(CACHE, 'xdg'), ignore_errors=True)
                 if r.returncode != 0:
                     json.dump({'files': {}, 'built': False}, open(stamp_path, 'w'))
                     raise RuntimeError('native build of the working tree failed:\n' + (r.stdout + r.stderr)[-4000:])
